@@ -37,14 +37,15 @@ func mustDeref(t types.Type) types.Type {
 
 // State of one path execution.
 type interpreter struct {
-	P         *Program
-	prog      *ssa.Program
-	globals   map[*ssa.Global]*value
-	path      *pathCtx
-	funcsSeen map[string]bool
-	stubsSeen map[string]bool
-	cur       *frame
-	chanKinds map[interface{}]*chanModel
+	P          *Program
+	prog       *ssa.Program
+	globals    map[*ssa.Global]*value
+	path       *pathCtx
+	funcsSeen  map[string]bool
+	stubsSeen  map[string]bool
+	cur        *frame
+	chanKinds  map[interface{}]*chanModel
+	panicNoted bool
 }
 
 type chanModel struct {
@@ -600,6 +601,12 @@ func callSSA(i *interpreter, caller *frame, callpos token.Pos, fn *ssa.Function,
 			defer func() { i.cur = saved }()
 			return in(i, args)
 		}
+		if hn, ok := harnessRedirects[name]; ok {
+			if hf := i.path.job.fn.Pkg.Func(hn); hf != nil && hf != fn {
+				i.stubsSeen[name+" -> harness "+hn] = true
+				return callSSA(i, caller, callpos, hf, args, nil)
+			}
+		}
 		if ext := stubs[name]; ext != nil {
 			i.stubsSeen[name] = true
 			saved := i.cur
@@ -620,6 +627,14 @@ func callSSA(i *interpreter, caller *frame, callpos token.Pos, fn *ssa.Function,
 					panic(exitPanic(1))
 				}
 				i.stubsSeen[path+".*"] = true
+				if strings.HasPrefix(path, "github.com/alecthomas/kingpin") && fn.Signature.Results().Len() == 1 {
+					// flag definitions: a fresh zero-valued object (flag variables are non-nil and hold
+					// the zero value of their type until a harness assigns them)
+					if pt, ok := fn.Signature.Results().At(0).Type().Underlying().(*types.Pointer); ok {
+						v := zero(pt.Elem())
+						return &v
+					}
+				}
 				return zeroResult(fn.Signature)
 			}
 			if i.P.isRepoPkg(path) {
@@ -669,6 +684,8 @@ func callSSA(i *interpreter, caller *frame, callpos token.Pos, fn *ssa.Function,
 
 // runFrame executes SSA instructions starting at fr.block and
 // continuing until a return, a panic, or a recovered panic.
+var debugPanics = os.Getenv("VERIF_DEBUG") != ""
+
 func runFrame(fr *frame) {
 	defer func() {
 		if fr.block == nil {
@@ -677,6 +694,14 @@ func runFrame(fr *frame) {
 		r := recover()
 		if isControlPanic(r) {
 			panic(r) // engine control flow: unwind without running target defers
+		}
+		if debugPanics && !fr.i.panicNoted {
+			fr.i.panicNoted = true
+			where := fr.fn.String()
+			if fr.curInstr != nil {
+				where += " " + loc(fr.i.prog.Fset, fr.curInstr.Pos()) + " " + fr.curInstr.String()
+			}
+			fmt.Fprintf(os.Stderr, "[debug] panic %v raised in %s\n", r, where)
 		}
 		fr.panicking = true
 		fr.panic = r
